@@ -129,10 +129,19 @@ Definition name_end (pi eq : bool) (l : list Z) : Prop :=
 (* ---- the general shape of what the lexer returns inside a tag (start tag or processing instruction) ------- *)
 (* a piece: optional whitespace, a name (bytes that do not stop the name loop: '/' and '?' are allowed unless
    followed by '>'), then nothing, or '=' and an unquoted value, or '=' and a quoted value *)
+(* the two bytes ? > do not occur in l *)
+Fixpoint no_pi_end (l : list Z) : Prop :=
+  match l with
+  | c :: ((c1 :: _) as t) => ~ (c = 63 /\ c1 = 62) /\ no_pi_end t
+  | _ => True
+  end.
+
 Inductive gval :=
 | VNone
 | VUnq (ws1 ws2 val : list Z)
-| VQuo (ws1 ws2 : list Z) (q : Z) (val : list Z).
+| VQuo (ws1 ws2 : list Z) (q : Z) (val : list Z)
+(* in a processing instruction: a quoted value that is not closed before the instruction's ?> *)
+| VQuoCut (ws1 ws2 : list Z) (q : Z) (val : list Z).
 Record gattr := mkG { g_lead : list Z; g_name : list Z; g_val : gval }.
 
 Definition render_gval (v : gval) : list Z :=
@@ -140,10 +149,12 @@ Definition render_gval (v : gval) : list Z :=
   | VNone => []
   | VUnq w1 w2 x => w1 ++ [61] ++ w2 ++ x
   | VQuo w1 w2 q x => w1 ++ [61] ++ w2 ++ [q] ++ x ++ [q]
+  | VQuoCut w1 w2 q x => w1 ++ [61] ++ w2 ++ [q] ++ x
   end.
 Definition norm_gval (v : gval) : list Z :=
   match v with
   | VQuo w1 w2 q x => w1 ++ [61] ++ w2 ++ [q] ++ map ws2sp x ++ [q]
+  | VQuoCut w1 w2 q x => w1 ++ [61] ++ w2 ++ [q] ++ map ws2sp x
   | _ => render_gval v
   end.
 Definition gval_obs (v : gval) : option (list Z) :=
@@ -151,6 +162,7 @@ Definition gval_obs (v : gval) : option (list Z) :=
   | VNone => None
   | VUnq _ _ x => Some x
   | VQuo _ _ q x => Some ([q] ++ map ws2sp x ++ [q])
+  | VQuoCut _ _ q x => Some ([q] ++ map ws2sp x)
   end.
 Definition render_gattr (a : gattr) : list Z := g_lead a ++ g_name a ++ render_gval (g_val a).
 Definition norm_gattr (a : gattr) : list Z := g_lead a ++ g_name a ++ norm_gval (g_val a).
@@ -182,7 +194,12 @@ Definition gattr_ok (pi : bool) (a : gattr) (rest : list Z) : Prop :=
   | VQuo w1 w2 q x =>
       Forall (fun c => is_ws c = true) w1 /\ Forall (fun c => is_ws c = true) w2 /\ (g_name a = [] -> w1 = []) /\
       name_run pi true (g_name a) (getz (w1 ++ [61]) 0) /\
-      (q = 34 \/ q = 39) /\ Forall (fun c => c <> q /\ c <> 0) x
+      (q = 34 \/ q = 39) /\ Forall (fun c => c <> q /\ c <> 0) x /\ (pi = true -> no_pi_end x)
+  | VQuoCut w1 w2 q x =>
+      Forall (fun c => is_ws c = true) w1 /\ Forall (fun c => is_ws c = true) w2 /\ (g_name a = [] -> w1 = []) /\
+      name_run pi true (g_name a) (getz (w1 ++ [61]) 0) /\
+      (q = 34 \/ q = 39) /\ Forall (fun c => c <> q /\ c <> 0) x /\ no_pi_end x /\
+      pi = true /\ exists t, rest = 63 :: 62 :: t
   end.
 
 Fixpoint gattrs_ok (pi : bool) (l : list gattr) (tail : list Z) : Prop :=
@@ -260,7 +277,7 @@ Definition item_ok (it : item) : Prop :=
   | IComment b => Forall (fun c => c <> 0) b /\ no_occurrence pat_comment_end b
   | ICdata b => Forall (fun c => c <> 0) b /\ no_occurrence pat_cdata_end b
   | IDoctype ps => Forall dpiece_ok ps
-  | IPI t attrs ws => is_name false t /\ Forall attr_ok attrs /\ all_ws ws
+  | IPI t attrs ws => is_name false t /\ Forall attr_ok attrs /\ all_ws ws /\ Forall (fun a => no_pi_end (a_val a)) attrs
   | IStart n attrs ws void => is_name false n /\ getz n 0 <> 33 /\ Forall attr_ok attrs /\ all_ws ws
   | IEnd n ws => is_name false n /\ all_ws ws
   | ITag pi n ps ws k =>
@@ -894,21 +911,41 @@ Proof.
   rewrite app_assoc, <- len_app. apply skipz_app_exact.
 Qed.
 
-Lemma quoted_value_cur pre tk val q r : Forall (fun c => c <> q /\ c <> 0) val -> q <> 0 ->
-  quoted_value q (cur pre tk (val ++ q :: r)) = Some (cur pre ((tk ++ map ws2sp val) ++ [q]) r).
+Lemma scan_quoted_app pi q val r : Forall (fun c => c <> q /\ c <> 0) val -> q <> 62 -> (pi = true -> no_pi_end val) ->
+  scan_quoted pi q (val ++ q :: r) = Some (len val).
 Proof.
-  intros Hv Hq. unfold quoted_value. rewrite suffix_cur.
-  rewrite (scan_while_app (until q) val q r) by (try apply forall_until; try assumption; unfold until; lia).
-  cbn [option_bind].
-  assert (E : mkLx (norm_range (lbuf (cur pre tk (val ++ q :: r))) (lpos (cur pre tk (val ++ q :: r)))
-                               (lpos (cur pre tk (val ++ q :: r)) + len val))
-                   (lpos (cur pre tk (val ++ q :: r)) + len val) (lstart (cur pre tk (val ++ q :: r)))
-              = cur pre (tk ++ map ws2sp val) (q :: r)).
-  { unfold cur. cbn [lbuf lpos lstart]. f_equal.
-    - replace (pre ++ tk ++ val ++ q :: r) with ((pre ++ tk) ++ val ++ q :: r) by (rewrite <- app_assoc; reflexivity).
-      rewrite <- len_app. rewrite norm_range_mid. rewrite <- !app_assoc. reflexivity.
-    - rewrite len_app, len_map. lia. }
-  rewrite E. rewrite pk_cur0. cbn [option_bind]. rewrite Z.eqb_refl. rewrite mv_cur1. reflexivity.
+  intros Hv Hq. induction Hv as [|x v (Hx1 & Hx2) Hv IH]; intros Hn; cbn [app]; rewrite scan_quoted_step.
+  - rewrite Z.eqb_refl. reflexivity.
+  - destruct (Z.eqb_spec x q); [congruence|]. destruct (Z.eqb_spec x 0); [congruence|].
+    assert (Ht : (if pi then tag_end true x (v ++ q :: r) else Some false) = Some false).
+    { destruct pi; [|reflexivity]. rewrite tag_end_eq by (left; destruct v; discriminate).
+      unfold tag_end_b. destruct (Z.eqb_spec x 63) as [->|]; [|reflexivity]. cbn [andb]. f_equal.
+      specialize (Hn eq_refl). destruct v as [|y v']; cbn [app]; rewrite getz_cons_0.
+      - lia.
+      - destruct Hn as (Hn & _). destruct (Z.eqb_spec y 62); [exfalso; apply Hn; auto|reflexivity]. }
+    rewrite Ht. cbn [option_bind orb]. rewrite IH.
+    + cbn [option_bind]. rewrite len_cons. reflexivity.
+    + intros Hp. specialize (Hn Hp). destruct v; [exact I|]. destruct Hn as (_ & Hn). exact Hn.
+Qed.
+
+Lemma quoted_norm_cur pre tk val X :
+  mkLx (norm_range (lbuf (cur pre tk (val ++ X))) (lpos (cur pre tk (val ++ X))) (lpos (cur pre tk (val ++ X)) + len val))
+       (lpos (cur pre tk (val ++ X)) + len val) (lstart (cur pre tk (val ++ X)))
+  = cur pre (tk ++ map ws2sp val) X.
+Proof.
+  unfold cur. cbn [lbuf lpos lstart]. f_equal.
+  - replace (pre ++ tk ++ val ++ X) with ((pre ++ tk) ++ val ++ X) by (rewrite <- app_assoc; reflexivity).
+    rewrite <- len_app. rewrite norm_range_mid. rewrite <- !app_assoc. reflexivity.
+  - rewrite len_app, len_map. lia.
+Qed.
+
+Lemma quoted_value_cur pi pre tk val q r : Forall (fun c => c <> q /\ c <> 0) val -> q = 34 \/ q = 39 ->
+  (pi = true -> no_pi_end val) ->
+  quoted_value pi q (cur pre tk (val ++ q :: r)) = Some (cur pre ((tk ++ map ws2sp val) ++ [q]) r).
+Proof.
+  intros Hv Hq Hn. unfold quoted_value. rewrite suffix_cur.
+  rewrite scan_quoted_app by (try assumption; lia). cbn [option_bind].
+  rewrite quoted_norm_cur. rewrite pk_cur0. cbn [option_bind]. rewrite Z.eqb_refl. rewrite mv_cur1. reflexivity.
 Qed.
 
 Lemma is_ws_false_of c : c = 61 \/ c = 34 \/ c = 39 \/ c = 62 \/ c = 47 \/ c = 63 -> is_ws c = false.
@@ -921,10 +958,10 @@ Proof.
   - apply name_end_ws. inversion Hw; assumption.
 Qed.
 
-Lemma lex_attr pi pre a r tx ax : attr_ok a ->
+Lemma lex_attr pi pre a r tx ax : attr_ok a -> (pi = true -> no_pi_end (a_val a)) ->
   exists tx' ax', steps (sin pi pre (render_attr a ++ r) tx ax) [expect_attr a] (sin pi (pre ++ norm_attr a) r tx' ax').
 Proof.
-  intros (Hl & Hlw & (Hnne & Hn) & Hw1 & Hw2 & Hq & Hv).
+  intros (Hl & Hlw & (Hnne & Hn) & Hw1 & Hw2 & Hq & Hv) Hnp.
   destruct a as [lead name ws1 ws2 q val]. cbn [a_lead a_name a_ws1 a_ws2 a_q a_val] in *.
   unfold render_attr, expect_attr, norm_attr, attr_value. cbn [a_lead a_name a_ws1 a_ws2 a_q a_val].
   destruct name as [|c n']; [congruence|].
@@ -1104,7 +1141,7 @@ Lemma lex_gattr_quo pi pre lead name w1 w2 q val R tx ax :
                         [expect_gattr (mkG lead name (VQuo w1 w2 q val))]
                         (sin pi (pre ++ norm_gattr (mkG lead name (VQuo w1 w2 q val))) R tx' ax').
 Proof.
-  intros (Hlw & Hw1 & Hw2 & Hne & Hn & Hq & Hv). cbn [g_lead g_name g_val] in *.
+  intros (Hlw & Hw1 & Hw2 & Hne & Hn & Hq & Hv & Hnp). cbn [g_lead g_name g_val] in *.
   unfold render_gattr, expect_gattr, norm_gattr. cbn [g_lead g_name g_val render_gval norm_gval gval_obs].
   assert (Hq0 : q <> 0) by lia.
   set (tk4 := (((lead ++ name) ++ w1) ++ [61]) ++ w2).
@@ -1164,6 +1201,101 @@ Proof.
     rewrite len_app. lia. }
   rewrite Ea in S. clear Ea. rewrite E6 in S.
   rewrite (obs_cur_in pre lead name (w1 ++ [61] ++ w2 ++ [q] ++ map ws2sp val ++ [q]) R) in S
+    by (rewrite ?len_app; lia).
+  unfold sin, Y in *. rewrite <- !app_assoc. cbn [app] in *. exact S.
+Qed.
+
+(* a quoted value cut by the ?> of the processing instruction *)
+Lemma scan_quoted_cut q val r : Forall (fun c => c <> q /\ c <> 0) val -> q = 34 \/ q = 39 -> no_pi_end val ->
+  scan_quoted true q (val ++ 63 :: 62 :: r) = Some (len val).
+Proof.
+  intros Hv Hq. induction Hv as [|x v (Hx1 & Hx2) Hv IH]; intros Hn; cbn [app]; rewrite scan_quoted_step.
+  - destruct (Z.eqb_spec 63 q); [lia|]. reflexivity.
+  - destruct (Z.eqb_spec x q); [congruence|]. destruct (Z.eqb_spec x 0); [congruence|].
+    assert (Ht : tag_end true x (v ++ 63 :: 62 :: r) = Some false).
+    { rewrite tag_end_eq by (left; destruct v; discriminate).
+      unfold tag_end_b. destruct (Z.eqb_spec x 63) as [->|]; [|reflexivity]. cbn [andb]. f_equal.
+      destruct v as [|y v']; cbn [app]; rewrite getz_cons_0; [reflexivity|].
+      destruct Hn as (Hn & _). destruct (Z.eqb_spec y 62); [exfalso; apply Hn; auto|reflexivity]. }
+    rewrite Ht. cbn [option_bind orb]. rewrite IH.
+    + cbn [option_bind]. rewrite len_cons. reflexivity.
+    + destruct v; [exact I|]. destruct Hn as (_ & Hn). exact Hn.
+Qed.
+
+Lemma quoted_value_cut pre tk val q r : Forall (fun c => c <> q /\ c <> 0) val -> q = 34 \/ q = 39 -> no_pi_end val ->
+  quoted_value true q (cur pre tk (val ++ 63 :: 62 :: r)) = Some (cur pre (tk ++ map ws2sp val) (63 :: 62 :: r)).
+Proof.
+  intros Hv Hq Hn. unfold quoted_value. rewrite suffix_cur.
+  rewrite scan_quoted_cut by assumption. cbn [option_bind].
+  rewrite quoted_norm_cur. rewrite pk_cur0. cbn [option_bind]. destruct (Z.eqb_spec 63 q); [lia|]. reflexivity.
+Qed.
+
+Lemma lex_gattr_cut pre lead name w1 w2 q val R tx ax :
+  gattr_ok true (mkG lead name (VQuoCut w1 w2 q val)) R ->
+  exists tx' ax', steps (sin true pre (render_gattr (mkG lead name (VQuoCut w1 w2 q val)) ++ R) tx ax)
+                        [expect_gattr (mkG lead name (VQuoCut w1 w2 q val))]
+                        (sin true (pre ++ norm_gattr (mkG lead name (VQuoCut w1 w2 q val))) R tx' ax').
+Proof.
+  intros (Hlw & Hw1 & Hw2 & Hne & Hn & Hq & Hv & Hnp & Hpi & (t & ER)). cbn [g_lead g_name g_val] in *. subst R.
+  unfold render_gattr, expect_gattr, norm_gattr. cbn [g_lead g_name g_val render_gval norm_gval gval_obs].
+  assert (Hq0 : q <> 0) by lia.
+  set (tk4 := (((lead ++ name) ++ w1) ++ [61]) ++ w2).
+  set (tk6 := (tk4 ++ [q]) ++ map ws2sp val).
+  set (R := 63 :: 62 :: t). set (Y := w1 ++ 61 :: w2 ++ q :: val ++ R).
+  assert (HY : Y <> []) by (unfold Y; destruct w1; discriminate).
+  assert (EY : getz Y 0 = getz (w1 ++ [61]) 0) by (unfold Y; destruct w1; reflexivity).
+  assert (Hdisp : exists c X', name ++ Y = c :: X' /\ is_ws c = false /\ c <> 0 /\
+                   tag_end_b true c (getz X' 0) = false /\ ((c = 47 \/ c = 63) -> X' <> [])).
+  { destruct name as [|c n'].
+    - pose proof (Hne eq_refl) as Ew. exists 61, (w2 ++ q :: val ++ R). unfold Y. rewrite Ew. cbn [app].
+      split; [reflexivity|]. split; [reflexivity|]. split; [lia|]. split; [reflexivity|]. intros [H|H]; discriminate.
+    - exists c, (n' ++ Y). split; [reflexivity|]. pose proof (name_run_head _ _ _ _ _ Hn) as Hs.
+      assert (E : match n' with [] => getz (w1 ++ [61]) 0 | c1 :: _ => c1 end = getz (n' ++ Y) 0)
+        by (destruct n'; [cbn [app]; rewrite EY|]; reflexivity).
+      rewrite E in Hs. destruct (stop_false_facts _ _ _ Hs) as (F1 & F2 & F3 & F4).
+      split; [exact F1|]. split; [exact F2|]. split; [exact F4|]. intros Hc.
+      destruct n'; [exact HY|discriminate]. }
+  destruct Hdisp as (c & X' & EX & D1 & D2 & D3 & D4).
+  assert (Hnx : next (sin true pre (lead ++ name ++ Y) tx ax) =
+                Some (TAttribute, Some (len pre, len pre + len tk6),
+                      mkX (cur (pre ++ tk6) [] R) false true true
+                          (Some (len pre + len lead, len pre + len (lead ++ name)))
+                          (Some (len pre + len tk4, len pre + len tk6)))).
+  { rewrite EX. rewrite next_intag_attr by assumption. rewrite <- EX.
+    unfold shift_attribute. rewrite suffix_cur.
+    rewrite scan_name_run by (first [assumption | (rewrite EY; exact Hn) | (apply name_end_eq; exact Hw1)]).
+    cbn [option_bind]. rewrite mv_cur by reflexivity. rewrite suffix_cur. unfold Y.
+    rewrite (scan_while_app is_ws w1 61 _ Hw1 eq_refl). cbn [option_bind]. rewrite mv_cur by reflexivity.
+    rewrite pk_cur0. cbn [option_bind]. change (61 =? 61) with true. cbv iota.
+    rewrite mv_cur1. rewrite suffix_cur.
+    rewrite (scan_while_app is_ws w2 q _ Hw2) by (apply is_ws_false_of; lia).
+    cbn [option_bind]. rewrite mv_cur by reflexivity. fold tk4. rewrite pk_cur0. cbn [option_bind].
+    replace ((q =? 34) || (q =? 39)) with true by lia.
+    rewrite mv_cur1. unfold R. rewrite quoted_value_cut by assumption. cbn [option_bind]. fold tk6. fold R.
+    rewrite !mark_cur.
+    assert (L46 : len tk4 <= len tk6).
+    { unfold tk6. rewrite !len_app. pose proof (len_nonneg (map ws2sp val)). change (len [q]) with 1. lia. }
+    assert (L6 : len (lead ++ name) <= len tk6).
+    { pose proof (len_nonneg w1). pose proof (len_nonneg w2). unfold tk4 in L46. rewrite !len_app in L46.
+      rewrite len_app. change (len [61]) with 1 in L46. lia. }
+    rewrite lex_sub_cur by (pose proof (len_nonneg tk4); lia). cbn [option_bind fst snd].
+    rewrite lex_sub_cur by (rewrite ?len_app; pose proof (len_nonneg lead); pose proof (len_nonneg name); try lia;
+                            rewrite len_app in L6; lia).
+    cbn [option_bind]. rewrite shift_c_cur. cbn [option_bind fst snd]. reflexivity. }
+  assert (E6 : tk6 = lead ++ name ++ w1 ++ [61] ++ w2 ++ [q] ++ map ws2sp val).
+  { unfold tk6, tk4. rewrite <- !app_assoc. reflexivity. }
+  assert (E64 : tk6 = tk4 ++ ([q] ++ map ws2sp val)).
+  { unfold tk6. rewrite <- !app_assoc. reflexivity. }
+  do 2 eexists.
+  pose proof (steps_one _ _ _ _ Hnx ltac:(discriminate)) as S.
+  unfold etok_of in S. cbn [xr xtext xattr] in S.
+  rewrite obs_cur in S.
+  assert (Ea : obs_sl (lbuf (cur (pre ++ tk6) [] R)) (Some (len pre + len tk4, len pre + len tk6))
+               = Some ([q] ++ map ws2sp val)).
+  { rewrite E64. apply (obs_cur_in2 pre tk4 ([q] ++ map ws2sp val) R); [reflexivity|].
+    rewrite len_app. lia. }
+  rewrite Ea in S. clear Ea. rewrite E6 in S.
+  rewrite (obs_cur_in pre lead name (w1 ++ [61] ++ w2 ++ [q] ++ map ws2sp val) R) in S
     by (rewrite ?len_app; lia).
   unfold sin, Y in *. rewrite <- !app_assoc. cbn [app] in *. exact S.
 Qed.
@@ -1280,7 +1412,9 @@ Qed.
 Lemma lex_gattr pi pre a R tx ax : gattr_ok pi a R ->
   exists tx' ax', steps (sin pi pre (render_gattr a ++ R) tx ax) [expect_gattr a] (sin pi (pre ++ norm_gattr a) R tx' ax').
 Proof.
-  destruct a as [lead name [|w1 w2 x|w1 w2 q x]]; [apply lex_gattr_none|apply lex_gattr_unq|apply lex_gattr_quo].
+  destruct a as [lead name [|w1 w2 x|w1 w2 q x|w1 w2 q x]]; [apply lex_gattr_none|apply lex_gattr_unq|apply lex_gattr_quo|].
+  intros Hok. assert (pi = true) as -> by (destruct Hok as (_ & _ & _ & _ & _ & _ & _ & _ & Hp & _); exact Hp).
+  apply lex_gattr_cut. exact Hok.
 Qed.
 
 Lemma next_not_eq_app rest r : next_not_eq rest -> next_not_eq (rest ++ r).
@@ -1291,13 +1425,14 @@ Qed.
 (* the side conditions only look at the beginning of what follows *)
 Lemma gattr_ok_app pi a rest r : rest <> [] -> gattr_ok pi a rest -> gattr_ok pi a (rest ++ r).
 Proof.
-  intros Hne (Hl & Hv). split; [exact Hl|]. destruct (g_val a) as [|w1 w2 x|w1 w2 q x].
+  intros Hne (Hl & Hv). split; [exact Hl|]. destruct (g_val a) as [|w1 w2 x|w1 w2 q x|w1 w2 q x].
   - destruct Hv as (H1 & H2 & H3 & H4). rewrite (getz_app_hd rest r) by exact Hne.
     repeat split; try assumption; [apply name_end_app; exact H3|apply next_not_eq_app; exact H4].
   - destruct Hv as (H1 & H2 & H3 & H4 & H5 & H6 & H7 & H8 & H9).
     rewrite (getz_app_hd rest r) by exact Hne. rewrite (app_assoc x rest r). rewrite (getz_app_hd (x ++ rest)) by (destruct x; [exact Hne|discriminate]).
     repeat split; try assumption. apply name_end_app; exact H6.
   - exact Hv.
+  - destruct Hv as (H1 & H2 & H3 & H4 & H5 & H6 & H7 & H8 & (t & ->)). repeat split; try assumption. exists (t ++ r). reflexivity.
 Qed.
 
 Lemma lex_gattrs pi ps : forall pre tail r tx ax, tail <> [] -> gattrs_ok pi ps tail ->
@@ -1320,28 +1455,31 @@ Qed.
 
 (* ---- whole tags, items, documents ------------------------------------------------------------------------------------ *)
 Lemma lex_attrs pi attrs : forall pre r tx ax, Forall attr_ok attrs ->
+  (pi = true -> Forall (fun a => no_pi_end (a_val a)) attrs) ->
   exists tx' ax', steps (sin pi pre (render_attrs attrs ++ r) tx ax) (map expect_attr attrs)
                         (sin pi (pre ++ norm_attrs attrs) r tx' ax').
 Proof.
-  induction attrs as [|a attrs IH]; intros pre r tx ax Hok.
+  induction attrs as [|a attrs IH]; intros pre r tx ax Hok Hnp.
   - exists tx, ax. cbn [render_attrs norm_attrs map concat app]. rewrite app_nil_r. apply steps_nil.
   - inversion Hok as [|? ? Ha Hrest]; subst.
     unfold render_attrs, norm_attrs. cbn [map concat]. rewrite <- app_assoc.
     destruct (lex_attr pi pre a (concat (map render_attr attrs) ++ r) tx ax Ha) as (tx1 & ax1 & S1).
+    { intros Hp. specialize (Hnp Hp). inversion Hnp; assumption. }
     destruct (IH (pre ++ norm_attr a) r tx1 ax1 Hrest) as (tx2 & ax2 & S2).
+    { intros Hp. specialize (Hnp Hp). inversion Hnp; assumption. }
     exists tx2, ax2. rewrite (app_assoc pre (norm_attr a)).
     change (expect_attr a :: map expect_attr attrs) with ([expect_attr a] ++ map expect_attr attrs).
     eapply steps_app; [exact S1|]. unfold render_attrs, norm_attrs in S2. exact S2.
 Qed.
 
 Lemma lex_tag_rest pi pre attrs ws k r tx ax : Forall attr_ok attrs -> all_ws ws -> is_closer_ty k ->
-  (pi = true -> k = TStartTagClosePI) ->
+  (pi = true -> k = TStartTagClosePI) -> (pi = true -> Forall (fun a => no_pi_end (a_val a)) attrs) ->
   steps (sin pi pre (render_attrs attrs ++ ws ++ closer_bytes k ++ r) tx ax)
         (map expect_attr attrs ++ [(k, Some (closer_bytes k), None, None)])
         (sout (pre ++ norm_attrs attrs ++ ws ++ closer_bytes k) r None).
 Proof.
-  intros Ha Hw Hk Hpi.
-  destruct (lex_attrs pi attrs pre (ws ++ closer_bytes k ++ r) tx ax Ha) as (tx1 & ax1 & S1).
+  intros Ha Hw Hk Hpi Hnp.
+  destruct (lex_attrs pi attrs pre (ws ++ closer_bytes k ++ r) tx ax Ha Hnp) as (tx1 & ax1 & S1).
   eapply steps_app; [exact S1|].
   pose proof (lex_closer pi (pre ++ norm_attrs attrs) ws k r tx1 ax1 Hw Hk Hpi) as S2.
   rewrite <- app_assoc in S2. exact S2.
@@ -1365,7 +1503,7 @@ Proof.
   - destruct Hok as (Hz & Hno). rewrite <- !app_assoc. apply lex_cdata; [assumption|].
     apply (no_closer_ppq 93 62); [lia|exact Hno].
   - rewrite <- !app_assoc. apply lex_doctype; assumption.
-  - destruct Hok as (Hn & Ha & Hw). rewrite <- !app_assoc.
+  - destruct Hok as (Hn & Ha & Hw & Hnp). rewrite <- !app_assoc.
     change ([63; 62] ++ r) with (closer_bytes TStartTagClosePI ++ r).
     destruct (lex_pitarget pre n (render_attrs attrs ++ ws ++ closer_bytes TStartTagClosePI ++ r) tx Hn) as (tx1 & S1).
     { apply name_end_tag_rest; unfold is_closer_ty; auto. }
@@ -1373,7 +1511,7 @@ Proof.
     change ((TStartTagPI, Some ([60; 63] ++ n), Some n, None) :: map expect_attr attrs ++ [(TStartTagClosePI, Some [63; 62], None, None)])
       with ([(TStartTagPI, Some ([60; 63] ++ n), Some n, None)] ++ (map expect_attr attrs ++ [(TStartTagClosePI, Some (closer_bytes TStartTagClosePI), None, None)])).
     eapply steps_app; [exact S1|].
-    pose proof (lex_tag_rest true (pre ++ [60; 63] ++ n) attrs ws TStartTagClosePI r tx1 None Ha Hw ltac:(unfold is_closer_ty; auto) ltac:(auto)) as S2.
+    pose proof (lex_tag_rest true (pre ++ [60; 63] ++ n) attrs ws TStartTagClosePI r tx1 None Ha Hw ltac:(unfold is_closer_ty; auto) ltac:(auto) ltac:(auto)) as S2.
     rewrite <- !app_assoc in S2. exact S2.
   - destruct Hok as (Hn & H33 & Ha & Hw). rewrite <- !app_assoc.
     set (k := if void then TStartTagCloseVoid else TStartTagClose).
@@ -1389,7 +1527,7 @@ Proof.
     change ((TStartTag, Some ([60] ++ n), Some n, None) :: map expect_attr attrs ++ [(k, Some (closer_bytes k), None, None)])
       with ([(TStartTag, Some ([60] ++ n), Some n, None)] ++ (map expect_attr attrs ++ [(k, Some (closer_bytes k), None, None)])).
     eapply steps_app; [exact S1|].
-    pose proof (lex_tag_rest false (pre ++ [60] ++ n) attrs ws k r tx1 None Ha Hw Hk ltac:(discriminate)) as S2.
+    pose proof (lex_tag_rest false (pre ++ [60] ++ n) attrs ws k r tx1 None Ha Hw Hk ltac:(discriminate) ltac:(discriminate)) as S2.
     rewrite <- !app_assoc in S2. exact S2.
   - destruct Hok as (Hn & Hw). rewrite <- !app_assoc. apply lex_endtag; assumption.
   - destruct Hok as (Hn & H33 & Hw & Hk & Hpi & Hgs & Hend).
